@@ -16,6 +16,10 @@ from repo_harness import Obs, Table, abstraction, fp
 from xvcbin import Sandbox
 
 SYSCALLS = 'openat,creat,write,pwrite64,rename,renameat,renameat2,unlink,unlinkat,mkdir,mkdirat,link,linkat,symlink,symlinkat,chmod,fchmod,fchmodat,copy_file_range,ftruncate,sendfile'
+# the calls a kill is injected at: every mutating call EXCEPT the opens.  A kill "between the open-for-write (create /
+# truncate) of a file and its first write" is the kill before that write; read-only opens (configuration, stores) would
+# otherwise dominate the per-thread counters of strace's `when=` and the store-save phase of the worker would rarely be hit.
+INJECT = ','.join(x for x in SYSCALLS.split(',') if x not in ('openat', 'creat'))
 MUT_OPEN = re.compile(r'O_WRONLY|O_RDWR|O_CREAT|O_TRUNC|O_APPEND')
 
 
@@ -154,7 +158,7 @@ def run_one(chk, xvc, base, cname, argv, targets, k, trace_ref, table):
     inv0, o0 = inventory(sb)
     objs0 = {rel: ob['bytes'] for rel, ob in o0.cache.items()}
     tf = os.path.join(sb.base, 'killed.trace')
-    cmd = ['strace', '-f', '-qq', '-o', tf, '-e', f'trace={SYSCALLS}', '-e', f'inject={SYSCALLS}:signal=KILL:when={k}',
+    cmd = ['strace', '-f', '-qq', '-o', tf, '-e', f'trace={SYSCALLS}', '-e', f'inject={INJECT}:signal=KILL:when={k}',
            xvc, '--skip-git'] + arg2
     rc_, out, err = sb.run(cmd, timeout=120)
     done = [x for l in parse_trace(tf, sb.root).values() for x in l] if os.path.exists(tf) else []
@@ -236,7 +240,7 @@ def run(chk):
         raw = {}
         for line in open(tf, errors='replace'):
             m = re.match(r'(\d+)\s+(\w+)\(', line)
-            if m and m.group(2) in SYSCALLS.split(','): raw[m.group(1)] = raw.get(m.group(1), 0) + 1
+            if m and m.group(2) in INJECT.split(','): raw[m.group(1)] = raw.get(m.group(1), 0) + 1
         n = max(raw.values(), default=0) + 1      # `when=k` counts every call of the set per thread (stdout writes included)
         ref.cleanup()
         ks = list(range(1, n + 1))
